@@ -23,7 +23,7 @@ import (
 	"github.com/flamego/flamego/verifharness/internal/rt"
 )
 
-const rule = "case = a history of 3..25 operations over one Flame and, per method, one mirror route.Tree populated identically: register(static | optional-static | optional twin of a registered route | dynamic route that can shadow a static one; through Route or, for comma lists in any case, Routes), headers(route, pairs) mirrored with SetHeaderMatcher, request(method, path, headers) with paths = route instances, the route text itself used as a path, extra leading slashes, trailing slashes. " +
+const rule = "case = a history of 3..25 operations over one Flame and, per method, one mirror route.Tree populated identically: register(static | optional-static | optional twin of a registered route | dynamic route that can shadow a static one; through Route or, for comma lists in any case, Routes), headers(route, pairs) mirrored with SetHeaderMatcher, request(method, path, headers) with paths = route instances, the route text itself used as a path, extra leading slashes, trailing slashes, optionally an over-escaped URL.RawPath. " +
 	"Oracle (differential, after every request): handler that ran / not-found and parameters from Flame.ServeHTTP == Tree.Match on the mirror; additionally == the reference matcher. " +
 	"non-trivial = a history with a request answered by a fully static, unconstrained route (the shortcut's domain) after >=2 registrations, or a request whose path contains route-syntax characters ('?', '{'), or a request that follows a headers operation on a static route; distinct by case text"
 
@@ -42,6 +42,8 @@ type Op struct {
 	H []string    `json:"pairs,omitempty"`
 	P string      `json:"path,omitempty"`
 	Q [][2]string `json:"headers,omitempty"`
+	// W: spelling on the wire (rt.Req.Wire)
+	W string `json:"wire,omitempty"`
 }
 
 type Case struct {
@@ -135,7 +137,9 @@ func checkCase(c Case) (out evid.Outcome) {
 			}
 			ran, nf, got = -1, false, nil
 			rec := httptest.NewRecorder()
-			f.ServeHTTP(rec, rt.NewRequest(op.M, op.P, hdr))
+			hreq := rt.Req{M: op.M, P: op.P, Wire: op.W}.HTTP()
+			hreq.Header = hdr
+			f.ServeHTTP(rec, hreq)
 			// mirror
 			wantIdx := -1
 			var wantParams route.Params
@@ -392,7 +396,7 @@ func genCase(t *rapid.T) Case {
 			case 3:
 				q = [][2]string{{"X-A", ""}}
 			}
-			c.Ops = append(c.Ops, Op{K: "req", M: m, P: p, Q: q})
+			c.Ops = append(c.Ops, Op{K: "req", M: m, P: p, Q: q, W: gen.Wire(t)})
 		}
 	}
 	return c
